@@ -193,8 +193,8 @@ func runC18(c *Ctx, r *Report) {
 		}
 	}
 
-	r.Rule("R18.8", "loops make progress: a loop in the built-in functions and library helpers whose only exit depends on a variable advanced by a computed step has a step proven non-zero")
-	checkLoopProgress(c, r, "R18.8", []string{"pkg/bifs", "pkg/lib", "pkg/mlrval"})
+	r.Rule("R18.8", "loops make progress: a loop in the built-in functions, library helpers, readers, writers and scanners whose only exit depends on a variable advanced by a computed step has a step proven non-zero")
+	checkLoopProgress(c, r, "R18.8", []string{"pkg/bifs", "pkg/lib", "pkg/mlrval", "pkg/input", "pkg/output", "pkg/scan", "pkg/dkvpx", "pkg/go-csv"})
 
 	r.Rule("R18.9", "slice lengths cannot go negative: every make([]T, x-c) with constant c > 0 is dominated by a test that x ≥ c")
 	checkMakeSliceLen(c, r, "R18.9")
